@@ -286,8 +286,10 @@ func recSize(ps []VProp) int {
 	return n
 }
 
-// systematicBig: every run, independent of the seed.
-func systematicBig() []BigDesc {
+// systematicBig: every run, independent of the seed.  A quick run takes the cheapest file that crosses both
+// the 64 KiB and the 65536-record limit (65540 one-byte records, faces naming the last vertices) plus one random formula
+// file; a thorough run all eight.
+func systematicBig(thorough bool) []BigDesc {
 	// (float32 values are the costly ones to evaluate in Coq: the wide layouts use doubles)
 	xyz := []VProp{vp("float", "x"), vp("float", "y"), vp("float", "z")}
 	xyzd := []VProp{vp("double", "x"), vp("double", "y"), vp("double", "z")}
@@ -296,7 +298,7 @@ func systematicBig() []BigDesc {
 		vp("uchar", "green"), vp("uchar", "blue")}
 	five := []VProp{vp("double", "quality"), vp("double", "y"), vp("double", "x"), vp("double", "confidence"), vp("double", "z")}
 	six := append(append([]VProp(nil), xyz...), vp("float", "nx"), vp("float", "ny"), vp("float", "nz"))
-	return []BigDesc{
+	all := []BigDesc{
 		// one record past 64 KiB of 24-byte records; the largest count of 25-byte records that still fits
 		{Fmt: "binary_little_endian", VProps: xyzd, NV: 65536/24 + 1, Seed: 1},
 		{Fmt: "binary_big_endian", VProps: append(append([]VProp(nil), xyzd...), vp("uchar", "label")), NV: 65536 / 25, Seed: 2},
@@ -314,6 +316,10 @@ func systematicBig() []BigDesc {
 		{Fmt: "ascii", VProps: xyz, NV: 40, Seed: 8, HasFace: true, Quads: true, NF: 700, CRLF: true,
 			FProps: []FProp{{Ct: "int", Lt: "double", Name: "texcoord"}, {Ct: "int", Lt: "uint", Name: "vertex_index"}}},
 	}
+	if thorough {
+		return all
+	}
+	return []BigDesc{all[3]}
 }
 
 // genBig: a random layout with a record count just below / at / past a power-of-two number of body bytes.
